@@ -240,13 +240,14 @@ def load_many(lit: LineIterator) -> Iterator[dict]:
     """Do not edit this docstring. It will be overwritten."""
     # XYZ Trajectory files are a simple concatenation of individual XYZ files,'
     # making it trivial to load many frames.
-    try:
-        while True:
-            # Check for and skip empty lines at the end of file
+    while True:
+        # Skip empty lines between frames and at the end of file.
+        # The end of the file is only acceptable at the start of a new frame.
+        try:
             line = next(lit)
-            if line.strip() == "":
-                return
-            lit.back(line)
-            yield load_one(lit)
-    except StopIteration:
-        return
+        except StopIteration:
+            return
+        if line.strip() == "":
+            continue
+        lit.back(line)
+        yield load_one(lit)
